@@ -3,6 +3,7 @@ package props
 import (
 	"fmt"
 	"go/token"
+	"strings"
 
 	"golang.org/x/tools/go/ssa"
 
@@ -338,6 +339,22 @@ func runC10(c *eng.Ctx) {
 		c.Guard("COUNT-rest", "success-only-with-accepted-first-node", pk, eng.Entry(pk), succ, cut, "the pick succeeds only when some candidate passed the first-node filter")
 		c.Ob("COUNT-rest", eng.FuncName(pk)+" accepted-flag", flagOK && len(accepted) > 0, pk.Pos(), "the found-flag becomes true only past the first-node filter")
 	}
+	// the free-slot formula used to pick servers and the one reported by the counters are the same computation
+	if a, b := c.NeedFunc("weed/topology", "(*NodeImpl).AvailableSpaceFor"), c.NeedFunc("weed/topology", "(*DiskUsageCounts).FreeSpace"); a != nil && b != nil {
+		shape := func(fn *ssa.Function) string {
+			out := ""
+			for _, r := range eng.Find(fn, eng.IsReturn) {
+				if r.Block() == fn.Recover {
+					continue
+				}
+				out += eng.ExprShape(r.(*ssa.Return).Results[0]) + ";"
+			}
+			return out
+		}
+		sa, sb := shape(a), shape(b)
+		c.Ob("SIB-free-formula", "AvailableSpaceFor vs FreeSpace", sa == sb && strings.Contains(sa, "ecShardCount"), a.Pos(), fmt.Sprintf("the placement's free-slot formula {%s} equals the counters' {%s} (EC shards charged the same way)", sa, sb))
+	}
+	c.Expect("SIB-free-formula", 1)
 	c.Expect("PROV-counts", 12)
 	c.Expect("COUNT-rest", 4)
 	c.Expect("ERR-reserve", 8)
